@@ -41,3 +41,35 @@ package index
 //@       (fsLen == old(fsLen) && fsWritten == old(fsWritten) && fsSynced == old(fsSynced) && old(fsExists)[pathjoin(d.path, itemFile(kind, id))]) ||
 //@       rmFailed[pathjoin(d.path, itemFile(kind, id))])
 //@   ensures [other files untouched] forall p string :: p != pathjoin(d.path, itemFile(kind, id)) ==> (fsExists[p] == old(fsExists)[p] && fsLen[p] == old(fsLen)[p])
+
+// ---------------------------------------------------------------------------
+// C12: the snapshot decoder is safe on every byte string
+// ---------------------------------------------------------------------------
+// No panic (index, slice bounds, negative or oversized make, nil dereference) for ANY reader
+// content; bufio.Reader.Read may return short reads; every allocation whose size comes from
+// the input must stay within alloc_budget.
+
+//@ func readVarLenString
+//@   props C12 C03
+//@   nopanic
+//@   requires r != nil
+//@   alloc_budget 65536
+
+//@ func Snapshot.readSegmentSnapshot
+//@   props C12 C03
+//@   nopanic
+//@   requires br != nil
+//@   alloc_budget 65536
+//@   ensures err == nil ==> ss != nil
+//@   ensures err != nil ==> ss == nil
+
+//@ func Snapshot.readFromVersion1
+//@   props C12 C03
+//@   nopanic
+//@   requires br != nil
+//@   alloc_budget 65536
+
+//@ func Snapshot.ReadFrom
+//@   props C12 C03
+//@   nopanic
+//@   alloc_budget 65536
